@@ -59,12 +59,15 @@ DATETIMES = [
     time.gmtime(2**32), time.struct_time((1969, 12, 31, 23, 59, 59, 2, 365,
                                           0)),
     time.struct_time((1960, 1, 1, 0, 0, 0, 4, 1, -1)),
+    time.struct_time((2001, 9, 9, 10, 46, 40, 6, 252, 0, 'JST', 32400)),
+    time.struct_time((2021, 7, 15, 12, 30, 5, 3, 196, -1, 'EDT', -14400)),
     datetime.date(2001, 2, 3), datetime.time(1, 2, 3),
     datetime.timedelta(seconds=5),
 ]
 STRINGS = ['', 'a', 'a' * 255, 'a' * 256, 'é' * 127, 'é' * 128, '✈' * 85,
            '✈' * 86, '\U0001F600' * 64, 'x' * 257, 'y' * 70000, '\x00',
-           '\ud800', 'ok\udfff', 'AMQP', '0', 'é']
+           '\ud800', 'ok\udfff', 'AMQP', '0', 'é', 'caf\udcc3\udca9',
+           'report-\udcff.csv', '\udc80', '\ufeffbom', '\ufeff']
 BYTESLIKE = [b'', b'abc', b'\xff\xfe', bytearray(b''), bytearray(b'abc'),
              bytearray(b'\xce' * 300), memoryview(b'abc')]
 
